@@ -219,6 +219,62 @@ func connsFacts(repo string, w *bytes.Buffer) error {
 			})
 		}
 	}
+	// close sites of the per-connection channels: (channel, function, 1 = inside a literal passed to a `.Do(` (sync.Once),
+	// 2 = inside a deferred literal at the top of the function, 0 = plain statement)
+	type cs struct {
+		ch, fn string
+		code   int
+	}
+	var closes []cs
+	for _, fn := range files {
+		if len(fn) > 8 && fn[len(fn)-8:] == "_test.go" {
+			continue
+		}
+		f, err := parser.ParseFile(fset, fn, nil, 0)
+		if err != nil {
+			return err
+		}
+		for _, d := range f.Decls {
+			fd, ok := d.(*ast.FuncDecl)
+			if !ok || fd.Body == nil {
+				continue
+			}
+			var visit func(n ast.Node, code int)
+			visit = func(n ast.Node, code int) {
+				ast.Inspect(n, func(x ast.Node) bool {
+					switch v := x.(type) {
+					case *ast.DeferStmt:
+						if lit, ok := v.Call.Fun.(*ast.FuncLit); ok {
+							visit(lit.Body, 2)
+							return false
+						}
+					case *ast.CallExpr:
+						if p := selPath(v.Fun); len(p) > 3 && p[len(p)-3:] == ".Do" && len(v.Args) == 1 {
+							if lit, ok := v.Args[0].(*ast.FuncLit); ok {
+								visit(lit.Body, 1)
+								return false
+							}
+						}
+						if id, ok := v.Fun.(*ast.Ident); ok && id.Name == "close" && len(v.Args) == 1 {
+							if p := selPath(v.Args[0]); len(p) > 7 && p[:7] == "client." {
+								closes = append(closes, cs{p, fd.Name.Name, code})
+							}
+						}
+					}
+					return true
+				})
+			}
+			visit(fd.Body, 0)
+		}
+	}
+	w.WriteString("/-- every `close(client.<ch>)` of package server: (channel, function, 1 = inside a sync.Once literal, 2 = inside a deferred literal, 0 = plain) -/\ndef closeSites : List (String × String × Nat) :=\n  [")
+	for i, c := range closes {
+		if i > 0 {
+			w.WriteString(", ")
+		}
+		fmt.Fprintf(w, "(%q, %q, %d)", c.ch, c.fn, c.code)
+	}
+	w.WriteString("]\n\n")
 	w.WriteString("/-- every `delete(X.conns, …)` of package server: (function, 1 = top-level statement after a top-level `close(Y.closed)`) -/\ndef connsDeletes : List (String × Nat) :=\n  [")
 	for i, d := range dels {
 		if i > 0 {
